@@ -289,3 +289,285 @@ def c08_multiphase(case):
     if not (np.array_equal(ms1[0].fractions[-1], ms2[1].fractions[-1]) and np.array_equal(ms1[1].orientations[-1], ms2[0].orientations[-1])):
         problems.append("reordering the minerals handed to update_all changes the result")
     return {"reproduced": bool(problems), "detail": problems[:5] or "each phase evolves with its own volume factor"}
+
+
+# ---------------------------------------------------------------------------------------
+
+
+def c11_tensors(case):
+    """pydrex.tensors against plain-numpy oracles on random triclinic / non-symmetric inputs."""
+    from pydrex import tensors as T
+    from scipy.spatial.transform import Rotation
+
+    rng = np.random.default_rng(11)
+    problems = []
+    vi = lambda p, q: p if p == q else 6 - p - q  # noqa: E731
+    for trial in range(3):
+        M = rng.normal(size=(6, 6))
+        M = M + M.T
+        ten = T.voigt_to_elastic_tensor(M)
+        want = np.array([[[[M[vi(p, q), vi(r, s)] for s in range(3)] for r in range(3)] for q in range(3)] for p in range(3)])
+        if not np.allclose(ten, want):
+            problems.append("voigt_to_elastic_tensor index map")
+        if not np.allclose(T.elastic_tensor_to_voigt(ten), M):
+            problems.append("elastic_tensor_to_voigt is not the inverse map")
+        d, v = T.voigt_decompose(M)
+        if not (np.allclose(d, np.einsum("ijkk->ij", want)) and np.allclose(v, np.einsum("ikjk->ij", want))):
+            problems.append("voigt_decompose is not (C_ijkk, C_ikjk)")
+        x = T.voigt_matrix_to_vector(M)
+        if not (np.allclose(T.voigt_vector_to_matrix(x), M) and np.isclose(x @ x, (want**2).sum())):
+            problems.append("21-vector map is not an inverse pair / isometry")
+        y = rng.normal(size=21)
+        if not np.allclose(T.voigt_matrix_to_vector(T.voigt_vector_to_matrix(y)), y):
+            problems.append("vector -> matrix -> vector is not the identity")
+        R1, R2 = Rotation.random(2, random_state=trial + 1).as_matrix()
+        rot = T.rotate(want, R1)
+        if not np.allclose(rot, np.einsum("ia,jb,kc,ld,abcd->ijkl", R1, R1, R1, R1, want)):
+            problems.append("rotate does not obey the transformation law")
+        if not (np.isclose((rot**2).sum(), (want**2).sum()) and np.allclose(T.rotate(rot, R2), T.rotate(want, R2 @ R1))):
+            problems.append("rotate: norm / group action")
+        for P in (T.mono_project, T.ortho_project, T.tetr_project, T.hex_project):
+            if not (np.allclose(P(P(y)), P(y)) and np.isclose(P(x) @ y, x @ P(y))):
+                problems.append(f"{P.__name__} is not an orthogonal projector")
+        if not (np.allclose(T.hex_project(T.tetr_project(y)), T.hex_project(y)) and np.allclose(T.tetr_project(T.ortho_project(y)), T.tetr_project(y))
+                and np.allclose(T.ortho_project(T.mono_project(y)), T.ortho_project(y))):
+            problems.append("projectors are not nested")
+        A = rng.normal(size=(3, 3))
+        I1, I2, I3 = T.invariants_second_order(A)
+        ev = np.linalg.eigvals(A)
+        e2 = ev[0] * ev[1] + ev[1] * ev[2] + ev[2] * ev[0]
+        if not (np.isclose(I1, ev.sum().real) and np.isclose(I2, e2.real) and np.isclose(I3, np.prod(ev).real)):
+            problems.append(f"invariants_second_order != elementary symmetric functions of the eigenvalues (I2 {I2:.4f} vs {e2.real:.4f})")
+        for left in (True, False):
+            Rm, S = T.polar_decompose(A, left=left)
+            prod = S @ Rm if left else Rm @ S
+            if not (np.allclose(Rm @ Rm.T, np.eye(3)) and np.allclose(S, S.T) and np.allclose(prod, A) and np.linalg.eigvalsh(S).min() > -1e-12):
+                problems.append(f"polar_decompose(left={left})")
+    return {"reproduced": bool(problems), "detail": sorted(set(problems))[:6] or "tensor representations consistent on the replay inputs"}
+
+
+def c13_diagnostics(case):
+    from pydrex import diagnostics as dg
+    from pydrex import stats, utils
+    from scipy.spatial.transform import Rotation
+
+    problems = []
+    base = Rotation.from_euler("zxz", [0.6, 0.9, 0.3])
+    A = (Rotation.from_rotvec(0.25 * np.random.default_rng(2).normal(size=(300, 3))) * base).as_matrix()
+    Q = Rotation.from_euler("zxz", [1.0, 0.5, 2.0]).as_matrix()
+    for ax, row in (("a", 0), ("b", 1), ("c", 2)):
+        S = stats._scatter_matrix(A, row)
+        full = np.einsum("gi,gj->ij", A[:, row, :], A[:, row, :])
+        if not np.allclose(np.tril(S), np.tril(full)):
+            problems.append(f"scatter matrix [{ax}] lower triangle is not sum v v^T of the crystal axis")
+        w, V = np.linalg.eigh(full)
+        m = dg.bingham_average(A, axis=ax)
+        if not (np.isclose(np.linalg.norm(m), 1) and abs(abs(m @ V[:, -1]) - 1) < 1e-8):
+            problems.append(f"Bingham mean [{ax}] is not the principal eigenvector of the scatter matrix")
+        pgr = np.array(dg.symmetry_pgr(A, axis=ax))
+        wd = w[::-1]
+        want = np.array([wd[0] - wd[1], 2 * (wd[1] - wd[2]), 3 * wd[2]]) / w.sum()
+        if not (np.allclose(pgr, want) and np.isclose(pgr.sum(), 1) and pgr.min() >= -1e-12 and pgr.max() <= 1 + 1e-12):
+            problems.append(f"P, G, R [{ax}] wrong or outside [0, 1]")
+        pgr2 = np.array(dg.symmetry_pgr(A @ Q.T, axis=ax))
+        m2 = dg.bingham_average(A @ Q.T, axis=ax)
+        if not (np.allclose(pgr2, pgr, atol=1e-9) and abs(abs(m2 @ (Q @ m)) - 1) < 1e-8):
+            problems.append(f"[{ax}] not frame independent / mean axis does not co-rotate")
+        perm = np.random.default_rng(3).permutation(len(A))
+        A3 = A[perm].copy()
+        A3[::3] = np.diag([1, -1, -1]) @ A3[::3]
+        if not np.allclose(dg.symmetry_pgr(A3, axis=ax), pgr, atol=1e-9):
+            problems.append(f"[{ax}] changes under reordering / lattice two-fold relabelling")
+    ba = dg.coaxial_index(A)
+    if not 0 <= ba <= 1:
+        problems.append("coaxial index outside [0, 1]")
+    F = np.array([[1.3, 0.4, 0.1], [0.0, 0.8, 0.5], [0.2, -0.3, 1.1]])
+    s, v = dg.finite_strain(F)
+    w, V = np.linalg.eigh(F @ F.T)
+    if not (np.isclose(s, np.sqrt(w[-1]) - 1) and abs(abs(v @ V[:, -1]) - 1) < 1e-9):
+        problems.append("finite_strain is not the top eigenpair of F F^T")
+    s2, v2 = dg.finite_strain(F @ Q)
+    s3, v3 = dg.finite_strain(Q @ F)
+    if not (np.isclose(s2, s) and abs(abs(v2 @ v) - 1) < 1e-9 and np.isclose(s3, s) and abs(abs(v3 @ (Q @ v)) - 1) < 1e-9):
+        problems.append("finite_strain: F -> F Q / F -> Q F behaviour")
+    for eps in (0.3, 1.0, 2.5):
+        Fs = np.eye(3)
+        Fs[1, 0] = 2 * eps
+        _, ax_ = dg.finite_strain(Fs)
+        ang = np.deg2rad(utils.angle_fse_simpleshear(eps))
+        if abs(abs(ax_ @ np.array([np.cos(ang), np.sin(ang), 0.0])) - 1) > 1e-8:
+            problems.append("simple shear: finite-strain axis disagrees with angle_fse_simpleshear")
+    return {"reproduced": bool(problems), "detail": sorted(set(problems))[:6] or "diagnostics objective on the replay inputs"}
+
+
+def c14_triclinic(case):
+    import pydrex
+    from pydrex import geometry as geo
+    from pydrex import stats
+    from scipy.spatial.transform import Rotation
+
+    problems = []
+    sysm = geo.LatticeSystem.triclinic
+    rng = np.random.default_rng(4)
+    A = (Rotation.from_rotvec(rng.normal(size=(60, 3)) * [0.2, 0.2, 3.0])).as_matrix()
+    m0 = pydrex.misorientation_index(A, sysm)
+    if not -1e-3 <= m0 <= 1 + 1e-3:
+        problems.append(f"triclinic M-index {m0} outside [0, 1]")
+    for Q in Rotation.from_euler("zxz", [[0.7, 1.1, 0.4], [2.9, 2.0, 1.0], [3.0, 3.0, 3.0]]).as_matrix():
+        m1 = pydrex.misorientation_index(A @ Q.T, sysm)
+        if abs(m1 - m0) > 1e-9:
+            problems.append(f"triclinic M-index changes under a frame rotation ({m0:.6f} -> {m1:.6f})")
+    m2 = pydrex.misorientation_index(A[rng.permutation(len(A))], sysm)
+    if abs(m2 - m0) > 1e-9:
+        problems.append("triclinic M-index changes under reordering")
+    q = Rotation.from_matrix(A).as_quat().astype(np.float64)
+    ang = geo.misorientation_angles(q[:-1, None, :], -q[1:, None, :])
+    ang2 = geo.misorientation_angles(q[:-1, None, :], q[1:, None, :])
+    if ang.max() > 180 + 1e-6 or ang.min() < 0 or not np.allclose(ang, ang2, atol=1e-4):
+        problems.append(f"misorientation angles depend on the quaternion sign or leave [0, 180] (max {ang.max():.1f})")
+    single = np.repeat(A[:1], 20, axis=0)
+    m3 = pydrex.misorientation_index(single, sysm)
+    if m3 < 0.9:
+        problems.append(f"single-orientation texture has M = {m3:.3f}")
+    return {"reproduced": bool(problems), "detail": problems[:5] or "triclinic index invariant on the replay inputs"}
+
+
+def c15_resample(case):
+    """The RNG is replaced by a fixed grid of variates; every draw must be the grain whose cumulative-volume
+    interval (ascending volume order) contains the variate."""
+    from pydrex import stats
+
+    us = np.array([0.0, 0.03, 0.2, 0.35, 0.5, 0.62, 0.8, 0.97, 0.999999])
+
+    class G:
+        def random(self, n):
+            return np.resize(us, n)
+
+    class RM:
+        @staticmethod
+        def default_rng(seed=None):
+            return G()
+
+    class NP:
+        random = RM
+
+        def __getattr__(self, k):
+            return getattr(np, k)
+
+    problems = []
+    old = stats.np
+    stats.np = NP()
+    try:
+        f = np.array([[0.4, 0.0, 0.1, 0.3, 0.2], [0.05, 0.5, 0.0, 0.15, 0.3]])
+        A = np.arange(2 * 5 * 9, dtype=float).reshape(2, 5, 3, 3)
+        oA, of = stats.resample_orientations(A, f, n_samples=len(us), seed=1)
+        if oA.shape != (2, len(us), 3, 3) or of.shape != (2, len(us)):
+            problems.append(f"output shapes {oA.shape} {of.shape}")
+        for s in range(2):
+            order = np.argsort(f[s], kind="stable")
+            cum = np.cumsum(f[s][order])
+            for j, u in enumerate(us):
+                k = order[np.searchsorted(cum, u, side="right")]
+                ok_pair = any(np.array_equal(oA[s, j], A[s, g]) and of[s, j] == f[s, g] for g in range(5))
+                if not ok_pair:
+                    problems.append(f"snapshot {s}: drawn (orientation, volume) pair is not an input grain")
+                elif of[s, j] == 0:
+                    problems.append(f"snapshot {s}: zero-volume grain drawn for u = {u}")
+                elif not np.isclose(of[s, j], f[s, k]):
+                    problems.append(f"snapshot {s}: u = {u} drew a grain of volume {of[s, j]} instead of {f[s, k]} (probability != volume)")
+        oA2, of2 = stats.resample_orientations(A, f, seed=1)
+        if oA2.shape != (2, 5, 3, 3):
+            problems.append("default n_samples is not the grain count")
+    finally:
+        stats.np = old
+    return {"reproduced": bool(problems), "detail": sorted(set(problems))[:5] or "draws follow the cumulative volume intervals"}
+
+
+def c18_flows(case):
+    from pydrex import utils
+    from pydrex import velocity as vel
+
+    problems = []
+    pts = [[0.3, -0.2, 0.45], [-0.6, 0.25, 0.1], [0.15, 0.55, -0.35], [0.0, 0.4, -0.3], [0.5, 0.0, 0.0], [0.0, 0.0, -0.7], [0.4, -0.6, 0.0]]
+    for flow in ("simple_shear_2d", "cell_2d", "corner_2d"):
+        for a, b in it.permutations("XYZ", 2):
+            u, L = {"simple_shear_2d": lambda: vel.simple_shear_2d(a, b, 0.7), "cell_2d": lambda: vel.cell_2d(a, b, 1.3, 2.0),
+                    "corner_2d": lambda: vel.corner_2d(a, b, 1.1)}[flow]()
+            h, v = "XYZ".index(a), "XYZ".index(b)
+            for x in pts:
+                x = np.array(x)
+                if flow == "corner_2d" and abs(x[h]) < 1e-9 and abs(x[v]) < 1e-9:
+                    continue
+                J = np.zeros((3, 3))
+                e = 1e-6
+                for k in range(3):
+                    d = np.zeros(3)
+                    d[k] = e
+                    J[:, k] = (u(np.nan, x + d) - u(np.nan, x - d)) / (2 * e)
+                Lx = L(np.nan, x)
+                if not np.all(np.isfinite(Lx)):
+                    problems.append(f"{flow}[{a}{b}]: gradient not finite at {x.tolist()}")
+                    continue
+                diff = np.abs(Lx - J)
+                # recorded defects: simple shear entry [h, v] (factor 2); cell entries [v, v], [v, h] and the trace
+                if flow == "simple_shear_2d":
+                    diff[h, v] = 0 if np.isclose(Lx[h, v], 2 * J[h, v], atol=1e-5) else diff[h, v]
+                if flow == "cell_2d":
+                    diff[v, v] = 0 if np.isclose(Lx[v, v], J[v, h], atol=1e-5) else diff[v, v]
+                    diff[v, h] = 0 if np.isclose(Lx[v, h], J[v, v], atol=1e-5) else diff[v, h]
+                if diff.max() > 1e-5:
+                    problems.append(f"{flow}[{a}{b}]: gradient differs from the Jacobian at {x.tolist()} by {diff.max():.2e} (beyond the recorded defects)")
+                if flow != "cell_2d" and abs(np.trace(Lx)) > 1e-9:
+                    problems.append(f"{flow}[{a}{b}]: trace {np.trace(Lx):.2e}")
+    rng = np.random.default_rng(6)
+    for _ in range(5):
+        Lm = rng.normal(size=(3, 3))
+        dt = rng.normal()
+        want = abs(dt) * np.abs(np.linalg.eigvalsh((Lm + Lm.T) / 2)).max()
+        if not np.isclose(utils.strain_increment(dt, Lm), want):
+            problems.append("strain_increment != |dt| x largest |principal strain rate|")
+    return {"reproduced": bool(problems), "detail": sorted(set(problems))[:6] or "flows consistent (up to the recorded defects)"}
+
+
+def c20_geometry(case):
+    from pydrex import geometry as geo
+    from pydrex import stats
+    from scipy.spatial.transform import Rotation
+
+    problems = []
+    rng = np.random.default_rng(8)
+    pts = rng.normal(size=(40, 3))
+    pts = np.vstack([pts, [[0, 0, 1.0], [0, 0, -2.0], [-1, -1, 0.5], [1, -1, -0.5]]])
+    with np.errstate(all="ignore"):
+        r, phi, theta = geo.to_spherical(pts[:, 0], pts[:, 1], pts[:, 2])
+        back = np.column_stack(geo.to_cartesian(phi, theta, r))
+    if not (np.allclose(back, pts, atol=1e-10) and np.allclose(np.cos(theta) * r, pts[:, 2], atol=1e-10)):
+        problems.append("cartesian -> spherical -> cartesian is not the identity / wrong colatitude")
+    A = Rotation.random(6, random_state=3).as_matrix()
+    amap = {"x": 0, "y": 1, "z": 2}
+    for ref in ("xy", "xz", "yx", "yz", "zx", "zy"):
+        for hkl in ([1, 0, 0], [0, 1, 0], [1, 2, -1]):
+            xv, yv, zv = geo.poles(A, ref_axes=ref, hkl=hkl)
+            d = np.einsum("gij,i->gj", A, np.array(hkl, dtype=float))
+            d /= np.linalg.norm(d, axis=1)[:, None]
+            up = (set("xyz") - set(ref)).pop()
+            if not (np.allclose(xv, d[:, amap[ref[0]]]) and np.allclose(yv, d[:, amap[ref[1]]]) and np.allclose(zv, d[:, amap[up]])):
+                problems.append(f"poles(ref_axes='{ref}'): components not permuted as specified")
+    u = pts / np.linalg.norm(pts, axis=1)[:, None]
+    X, Y = geo.lambert_equal_area(u[:, 0], u[:, 1], u[:, 2])
+    far = np.hypot(u[:, 0], u[:, 1]) > 1e-12
+    if not (np.allclose((X**2 + Y**2)[far], (1 - np.abs(u[:, 2]))[far], atol=1e-10) and np.allclose(X * u[:, 1], Y * u[:, 0], atol=1e-10)
+            and np.all(X * u[:, 0] >= -1e-12) and np.allclose(X[~far], 0) and np.allclose(Y[~far], 0)):
+        problems.append("lambert_equal_area: squared radius != 1 - |z| or azimuth changed")
+    data = u[:25]
+    for kernel in stats.SPHERICAL_COUNTING_KERNELS:
+        Xg, Yg, T = stats.point_density(data[:, 0], data[:, 1], data[:, 2], gridsteps=21, kernel=kernel)
+        p = rng.permutation(len(data))
+        T2 = stats.point_density(data[p, 0], data[p, 1], data[p, 2], gridsteps=21, kernel=kernel)[2]
+        sg = np.where(rng.random(len(data)) < 0.5, -1.0, 1.0)[:, None]
+        T3 = stats.point_density(*(data * sg).T, gridsteps=21, kernel=kernel)[2]
+        if not (np.all(np.isfinite(T)) and T.min() >= 0 and np.all(Xg**2 + Yg**2 <= 1 + 1e-9)):
+            problems.append(f"point_density[{kernel}]: not finite / negative / grid outside the disk")
+        if not (np.allclose(T2, T, atol=1e-9) and np.allclose(T3, T, atol=1e-9)):
+            problems.append(f"point_density[{kernel}]: depends on data order or on the sign of axial data")
+    return {"reproduced": bool(problems), "detail": sorted(set(problems))[:6] or "geometry primitives correct on the replay inputs"}
